@@ -396,6 +396,26 @@ def field(t, name, idx):
 # helpers on terms
 
 
+def int_array(t):
+    """Integer elements of an array value: an array aggregate of constants, or a constant of type `[uN; k]` / `&[uN; k]`
+    (a named `const XS: [u16; 5]` reaches MIR as its little-endian bytes)."""
+    t = strip(t)
+    while t[0] in ("ref", "deref", "cast"):
+        t = strip(t[2] if t[0] in ("ref", "cast") else t[1])
+    if t[0] == "agg" and t[1] == "array":
+        vals = [fold_int(e) for e in t[4]]
+        return vals if all(v is not None for v in vals) else None
+    if t[0] == "const" and isinstance(t[1], (bytes, bytearray)) and t[3]:
+        import re as _re
+        m = _re.match(r"^&?\[(u8|u16|u32|u64|usize|i8|i16|i32|i64|isize); (\d+)\]$", t[3])
+        if m:
+            w = {"u8": 1, "i8": 1, "u16": 2, "i16": 2, "u32": 4, "i32": 4, "u64": 8, "i64": 8, "usize": 8, "isize": 8}[m.group(1)]
+            k = int(m.group(2))
+            if len(t[1]) == w * k:
+                return [int.from_bytes(t[1][i * w:(i + 1) * w], "little", signed=m.group(1).startswith("i")) for i in range(k)]
+    return None
+
+
 def walk(t):
     """Yield every sub-term (pre-order)."""
     st = [t]
